@@ -70,6 +70,11 @@ theorem wrapV_refines (s : VSt) (c : VCall) (hl : c.legal s = true) : wrapV s c 
   | constructMove c => simp [wrapV, VCall.spec]
   | compare => simp [wrapV, VCall.spec, wCmpV_eq]
   | contents c => simp [wrapV, VCall.spec]
+  | rcontents c => simp [wrapV, VCall.spec]
+  | constructN c n v => simp [wrapV, VCall.spec]
+  | constructRange c ys => simp [wrapV, VCall.spec]
+  | reserve c n => simp [wrapV, VCall.spec]
+  | shrinkToFit c => simp [wrapV, VCall.spec]
 
 theorem runWrapV_eq (cs : List VCall) : ∀ (s : VSt), VCall.legalFrom s cs = true →
     runWrapVFrom s cs = VCall.runSpecFrom s cs := by
